@@ -10,32 +10,32 @@ ENV = "GOFLAGS=-mod=mod GOPROXY=off GOSUMDB=off GOTOOLCHAIN=local"
 CHECKS = {
  "C01": ("exploration",
    "runtime monitor: stuck-state certificate (two identical all-parked goroutine dumps with a still logical clock) + spin rule (a goroutine running library code in five dumps while the clock stands still for 5 s) + bounded-progress rule in completed render cycles, over generated terminating programs with hook-driven schedule perturbation",
-   "~1000 (quick) / ~20000 (thorough) generated terminating programs (n in 0..200 bars vs queue lengths incl. n>q, auto/manual/none, synced and slow decorators with different counts per bar, pop mode, removal, queue-after chains, priority churn, concurrent Write, render delay, user wait group, cancel/Shutdown by step or hook trigger) run against the real library under seeded delays at 15 hook points (incl. targeted single-point delays) and GOMAXPROCS 1/2/4/16; a hang is decided from goroutine states (deadlock) or from the number of completed render cycles after every bar is terminal (livelock), never from elapsed time.",
+   "~1000 (quick) / ~20000 (thorough) generated terminating programs (n in 0..200 bars vs queue lengths incl. n>q, auto/manual/none, synced and slow decorators with different counts per bar, pop mode, removal, queue-after chains, priority churn, concurrent Write, render delay, user wait group, cancel/Shutdown by step or hook trigger) run against the real library under seeded delays at 16 hook points (incl. targeted single-point delays, among them the bar actor itself) and GOMAXPROCS 1/2/4/16, plus 'swap' programs in which a bar with synchronised decorators leaves while a plain bar joins; a hang is decided from goroutine states (deadlock) or from the number of completed render cycles after every bar is terminal (livelock), never from elapsed time.",
    "unbounded 'eventually' restated as the two safety forms of DESIGN 2.4; wall-clock watchdog firing = inconclusive; schedules are sampled",
    "DESIGN.md 2.4, 4/C01"),
  "C02": ("exploration",
    "runtime monitor: child-process crash attribution (panic / fatal error with a library frame), stuck-state certificate, and assertions on calls issued after Wait returned",
-   "~1000 (quick) / ~20000 (thorough) call histories over the public Progress/Bar surface with the container-done event (natural end, ctx cancel, Shutdown) placed at random steps of client programs and at hook points via triggers; each scenario runs in a worker child whose death is attributed to the scenario logged last; after Wait: late Add -> (nil, ErrDone), late Write -> (0, ErrDone), late mutators change nothing, getters stable, Bar.Wait/second Wait/Shutdown return.",
+   "~1000 (quick) / ~20000 (thorough) call histories over the public Progress/Bar surface with the container-done event (natural end, ctx cancel, Shutdown) placed at random steps of client programs and at hook points via triggers; each scenario runs in a worker child whose death is attributed to the scenario logged last; after Wait: late Add -> (nil, ErrDone), late Write -> (0, ErrDone), late mutators (every public Bar method incl. both proxies) change nothing, getters stable, Bar.Wait/second Wait/Shutdown return.",
    "Add racing a Wait whose wait group is at zero is excluded by sync.WaitGroup's own contract (an anchor bar keeps the group above zero); documented panics excluded",
    "DESIGN.md 4/C02"),
  "C03": ("exploration",
    "runtime monitor: frame parser over the recorded output stream; last frame compared per bar with the post-Wait getters and the bar's on-complete/on-abort decoration spec; logical-clock check that nothing is written after Wait returned",
-   "~800 (quick) / ~16000 (thorough) auto-refresh programs with last increments, aborts, SetTotal, cancel and Shutdown racing the ticker, early refreshes and Wait itself (incl. Wait invoked while clients still run); the last output write is parsed (self-describing marker rows) and each remaining bar must appear once, in the state read back after Wait, with its on-complete / on-abort texts; removed bars absent (natural endings).",
+   "~800 (quick) / ~16000 (thorough) auto-refresh programs with last increments, aborts, SetTotal, cancel and Shutdown racing the ticker, early refreshes and Wait itself (incl. Wait invoked while clients still run); the last output write is parsed (self-describing marker rows) and each remaining bar must appear once, in the state read back after Wait, with its on-complete / on-abort texts; removed bars absent (natural endings); part busy ends every scenario by cancel/Shutdown while workers keep the bars' goroutines occupied; the whole stream is also replayed through the terminal emulator, the final screen must be the last frame.",
    "final-frame clause checked for auto-refresh containers; in manual mode only the implied 'never shown running again after terminal' form",
    "DESIGN.md 4/C03, Appendix A"),
  "C05": ("exploration",
    "runtime monitor: per-frame membership oracle (once, contiguous, prompt w.r.t. cycle-exact hook timestamps, leaves only when allowed, per-bar render counter consecutive) over parsed frames; notifier list checked against the last frame",
-   "~900 (quick) / ~18000 (thorough) histories of Add (from several clients while rendering), completion, abort with/without drop, removal, pop, queue-after, n>q, with up to ~150 frames each; every frame is parsed and the Appendix-A rules 1-4 are applied per bar, using the render.begin hook timestamps to decide which cycle a frame belongs to.",
+   "~900 (quick) / ~18000 (thorough) histories of Add (from several clients while rendering), completion, abort with/without drop, removal, pop, queue-after, n>q, with up to ~150 frames each; every frame is parsed and the Appendix-A rules 1-4 are applied per bar, using the render.begin hook timestamps to decide which cycle a frame belongs to; a queued bar whose predecessor is gone must be drawn (hand-over rules shared with C17; part late: pop mode, successors created 0-5 frames after the predecessor finished).",
    "bars clipped by the output height are excluded; scenarios with a render delay or a render error are not judged (membership of unseen frames unknown)",
    "DESIGN.md 4/C05, Appendix A"),
  "C13": ("exploration",
    "runtime monitor: exactly-once / ordering checker over unique text payloads in the parsed output stream against the invoke/return history of Progress.Write",
-   "~800 (quick) / ~16000 (thorough) programs with 1-9 writer goroutines (lines of 1-3000 bytes, multi-line writes) interleaved with render cycles, completion, the final render and shutdown, incl. writers that keep writing until well after Wait returned; every successful Write must appear once, untorn, above the rows of its frame, in an order consistent with real-time order, by the last frame; late writes must return (0, ErrDone) and emit nothing.",
+   "~800 (quick) / ~16000 (thorough) programs with 1-9 writer goroutines (lines of 1-3000 bytes, multi-line writes) interleaved with render cycles, completion, the final render and shutdown, incl. writers that keep writing until well after Wait returned; every successful Write must appear once, untorn, above the rows of its frame, in an order consistent with real-time order, by the last frame; late writes must return (0, ErrDone) and emit nothing; part lines: texts handed over in two pieces not aligned to lines, and one identical line written every cycle above unchanging rows (judged by multiplicity).",
    "'emitted by the last frame' only for auto-refresh containers once the first frame was written; manual: by the next rendered frame",
    "DESIGN.md 4/C13"),
  "C14": ("fault_enumeration",
    "runtime monitor: cancel/Shutdown placed by hook trigger at enumerated (hook point x occurrence) sites and at random steps of client programs; counters in shutdown-listener decorators, notifier reader, post-Wait getters, stuck-state certificate",
-   "~800 (quick) / ~16000 (thorough) programs ended by context cancel or Shutdown placed at 13 hook points x occurrences 1-4 (mid render, between a bar's first and second terminal frame, in the heap manager, at bar exit, concurrently with Add) or at a random step; after Wait: no bar running, exactly one of Completed/Aborted, never-completed bars aborted, every listener decorator (wrapped 1-3 deep) notified exactly once, exactly one notifier value without duplicates.",
+   "~800 (quick) / ~16000 (thorough) programs ended by context cancel or Shutdown placed at 13 hook points x occurrences 1-4 (mid render, between a bar's first and second terminal frame, in the heap manager, at bar exit, concurrently with Add) or at a random step; after Wait: no bar running, exactly one of Completed/Aborted, never-completed bars aborted, every listener decorator (wrapped 1-3 deep; some read their own bar, some take milliseconds) notified exactly once - counted at the moment Wait returns and again at the end -, exactly one notifier value without duplicates.",
    "a trigger that has not fired when the clients are done is overtaken by the director (reported per site in the evidence)",
    "DESIGN.md 4/C14"),
  "C16": ("exploration",
@@ -45,8 +45,8 @@ CHECKS = {
    "DESIGN.md 4/C16"),
  "C04": ("exploration",
    "runtime monitor: terminal emulator (ECMA-48 subset with scrollback) fed with the recorded output stream (a frame = what one render cycle wrote, however chunked); tape invariants checked after every frame; row groups complete (all extender lines, on the documented side); real pty for the terminal path",
-   "~960 (quick) / ~19000 (thorough) programs whose frames change height every cycle (bars added, removed, popped, extender rows, 0-5 text lines per cycle) on in-memory outputs and on real ptys of 2-24 rows x 60-200 columns with bar counts below, at and above the height; after every frame the emulator's tape must equal persisted lines ++ frame rows, the persisted region is append-only and made exactly of written text and popped rows, no live row is in the scrollback, no autowrap, nothing stale below; nothing before a render delay is released; nothing at all for non-refreshing non-terminal outputs.",
-   "trusted base: the emulator (golden vectors re-checked by setup_cmd); terminal size fixed per scenario; priority changes are not generated in pop-mode display scenarios",
+   "~960 (quick) / ~19000 (thorough) programs whose frames change height every cycle (bars added, removed, popped, extender rows, 0-5 text lines per cycle) on in-memory outputs and on real ptys of 2-24 rows x 60-200 columns with bar counts below, at and above the height; after every frame the emulator's tape must equal persisted lines ++ frame rows, the persisted region is append-only and made exactly of written text and popped rows, no live row is in the scrollback, no autowrap, nothing stale below; nothing before a render delay is released; nothing at all for non-refreshing non-terminal outputs; part resize: the pty window is resized mid-run and every frame whose cycle began after the resize returned must fit the size in force (rows-1, columns).",
+   "trusted base: the emulator (golden vectors re-checked by setup_cmd); across a window resize only 'each frame fits' is judged (what a terminal does to its content on a resize is its own business)",
    "DESIGN.md 2.5, 4/C04"),
  "C06": ("exploration",
    "runtime monitor: per-frame order oracle over parsed frames against the recorded priority history (invoke/return intervals vs cycle-exact hook timestamps), with applied / ambiguous / pending classification and the lazy-change exemption",
@@ -65,11 +65,11 @@ CHECKS = {
    "DESIGN.md 4/C11"),
  "C12": ("exploration",
    "runtime monitor: column oracle over parsed frames: each row's decorator part is rebuilt from its own tokens with one common width per synchronised column (max of the needs incl. W and extra-space flag over the bars of that frame) and compared byte for byte",
-   "~800 (quick) / ~16000 (thorough) programs with 2-12 bars carrying 0-3 synchronised and plain decorators per side in every mix (different counts per bar, both sides, wrapped in on-complete/on-abort/meta wrappers 1-3 deep, slow decorators, text widths changing every frame) while bars are added, completed, removed, popped and replaced, incl. n>q.",
+   "~1000 (quick) / ~20000 (thorough) programs with 2-12 bars carrying 0-3 synchronised and plain decorators per side in every mix (different counts per bar, both sides, wrapped in on-complete/on-abort/meta wrappers 1-3 deep, slow decorators, text widths changing every frame, texts with two-column runes and combining marks) while bars are added, completed, removed, popped and replaced, incl. n>q.",
    "container wide enough that nothing is truncated; bars clipped by height would still take part, so these scenarios never clip",
    "DESIGN.md 4/C12"),
  "C15": ("fault_enumeration",
-   "runtime monitor: fault injection at enumerated sites (k-th Fill of bar i, k-th extender call, k-th output Write, k-th terminal-size query via dup2 on a pty) + stuck-state certificate + debug-output / frame / hook assertions",
+   "runtime monitor: fault injection at enumerated sites (k-th Fill of bar i, the first Fill of a frame rendered on the container's way out, k-th extender call, k-th output Write, k-th terminal-size query via dup2 on a pty) + stuck-state certificate + debug-output / frame / hook assertions",
    "~850 (quick) / ~17000 (thorough) programs with one injected render error (k in 1,2,3,5,random; failing bar anywhere in the order) while the other bars carry unequal numbers of synchronised and slow decorators; after the fault: Wait returns (no certificate), no crash, the debug output holds the error exactly once, no further render cycle or output write, no bar running.",
    "fault sites that were not reached (bar finished earlier) count as trivial",
    "DESIGN.md 4/C15"),
@@ -80,8 +80,8 @@ CHECKS = {
    "DESIGN.md 4/C17"),
  "C18": ("exploration",
    "runtime monitor: terminal emulator tape invariants specialised to pop mode: new persisted bar rows are exactly the final rows of the bars the flush hook reports as retired, each once, unchanged, on top, in order",
-   "~900 (quick) / ~18000 (thorough) pop-mode programs (bars finishing in any order and in the same cycle, extender rows, text in between, no-pop bars, queue-after, removal flags) on in-memory outputs and on ptys of 2-24 rows.",
-   "priority changes are not generated in pop mode (a user priority on a finished bar contradicts 'rises above all running bars'); a finished bar may still be live in the last frame",
+   "~900 (quick) / ~18000 (thorough) pop-mode programs (bars finishing in any order and in the same cycle, extender rows, text in between, no-pop bars, queue-after, removal flags) on in-memory outputs and on ptys of 2-24 rows; part late: bars queued after a bar that has already finished or popped out, later finishers rising above them; priority calls at any time; every row group complete and in its documented order also in the frame that retires it.",
+   "a finished bar may still be live in the last frame",
    "DESIGN.md 4/C18"),
  "C07": ("exploration",
    "runtime monitor: width/UTF-8/termination assertions on every real Fill, Decor and rendered row for generated styles and widths; CPU-time/heap watchdog decides non-termination",
@@ -95,17 +95,17 @@ CHECKS = {
    "DESIGN.md 4/C09, Appendix B"),
  "C19": ("exploration",
    "runtime monitor: scripted under-layer below the real proxies; both sides of the proxy, Bar.Current and a recording moving-average decorator are compared per call",
-   "~3.8k (quick) / ~96k (thorough) scripted transfers through real ProxyReader/ProxyWriter over all 8 dynamic interface shapes x ewma x totals, with short/zero transfers, injected delays and errors at every position; bytes, n, err, Close forwarding, fast-path offering, Bar.Current and the delivered (n, duration) samples are checked.",
+   "~3.8k (quick) / ~96k (thorough) scripted transfers through real ProxyReader/ProxyWriter over all 8 dynamic interface shapes x ewma x totals, with short/zero transfers, injected delays and errors at every position; bytes, n, err, Close forwarding, fast-path offering, Bar.Current and the delivered (n, duration) samples are checked, for the harness' recorders and, through recording averages, for the library's MovingAverageSpeed / MovingAverageETA (value x bytes must account for the time since the previous byte-moving transfer).",
    "duration bounds are nesting relations between measured intervals; samples after completion are optional",
    "DESIGN.md 4/C19"),
  "C20": ("exploration",
    "runtime monitor: read-back oracle (printed string parsed and compared in 300-bit arithmetic with the true value) over unit-boundary lattices and random values (all size/counter decorators, default formats included); recording moving average for the estimator clauses; the public EWMA constructors at a constant rate",
-   "Every size/percentage/time/speed decorator output for ~220k (quick) / ~6M (thorough) generated (value, verb, flag, precision, route) cases is parsed back and must equal the true value within half a unit of the last printed digit with the largest fitting unit; sample sequences with n<=0 / zero durations must be conserved and reach the estimator through wrappers; elapsed/average speed must freeze on completion.",
+   "Every size/percentage/time/speed decorator output for ~220k (quick) / ~6M (thorough) generated (value, verb, flag, precision, route) cases is parsed back and must equal the true value within half a unit of the last printed digit with the largest fitting unit; sample sequences with n<=0 / zero durations must be conserved and reach the estimator through wrappers; elapsed/average speed must freeze on completion; estimators fed a varying rate must print a value between the extremes of their samples.",
    "documented domain only (0<=current<=total, <60 h); float eps 4e-16 relative",
    "DESIGN.md 4/C20"),
  "C08": ("exploration",
    "runtime monitor: reference-model oracle (big-integer expected fill) over an exhaustive boundary lattice + seeded random inputs + sorted chains, run against the real BarFiller",
-   "Every Fill of the real library on ~1.2M (quick) / ~16M (thorough) (total,current,refill,width,style) tuples is compared with exact big-integer proportional fill; boundary lattice over int64 x widths is enumerated completely, monotonicity is checked on sorted chains. Held = no counterexample among the inputs run.",
+   "Every Fill of the real library on ~1.2M (quick) / ~16M (thorough) (total,current,refill,width,style) tuples is compared with exact big-integer proportional fill; boundary lattice over int64 x widths is enumerated completely, monotonicity is checked on sorted chains; sequences of 24 frames are drawn by one filler instance with one of total/current/width/refill changing at a time. Held = no counterexample among the inputs run.",
    "harness width table for the generated runes; float rounding tolerance of one cell for totals > 2^40; body-width clause delegated to C07",
    "DESIGN.md 4/C08"),
 }
